@@ -106,6 +106,26 @@ def judge(data, loader_check=False):
         )
     if back != _listify(td):
         return Failure(case, f"report for {data!r} does not survive a JSON round trip"), "bad-json"
+    # the file-level query on the same bytes followed by bytes that are not a pickle
+    for junk in (b"", b"(garbage", b"N", b"\x00\xff\x00", b"K"):
+        jp = os.path.join(env.SCRATCH, f"c19-junk-{os.getpid()}.bin")
+        try:
+            os.makedirs(env.SCRATCH, exist_ok=True)
+            with open(jp, "wb") as fh:
+                fh.write(data + junk)
+            from fickling.analysis import is_likely_safe
+
+            ans = is_likely_safe(jp)
+        except Exception as e:  # noqa: BLE001
+            return (
+                Failure(case, f"is_likely_safe() on a file holding {data[:60]!r} followed by {junk!r} fails: {type(e).__name__}: {e}"),
+                "bad-verdict",
+            )
+        finally:
+            if os.path.exists(jp):
+                os.remove(jp)
+        if bool(ans) != (sev == Severity.LIKELY_SAFE):
+            return Failure(case, f"is_likely_safe() says {ans} for a file whose first pickle is rated {sev.name} (trailing {junk!r})"), "bad-verdict"
     # asking the summary whether it is clean does not change the report it gives afterwards
     try:
         bool(res), (not res)
@@ -155,7 +175,19 @@ def judge(data, loader_check=False):
             if not (T < sev):
                 continue
             try:
-                fickling.load(io.BytesIO(data), max_acceptable_severity=T)
+                if T == Severity.LIKELY_SAFE:
+                    # a stream whose .name is a descriptor number, not a path
+                    os.makedirs(env.SCRATCH, exist_ok=True)
+                    fpath = os.path.join(env.SCRATCH, f"c19-fd-{os.getpid()}.pkl")
+                    with open(fpath, "wb") as fh:
+                        fh.write(data)
+                    try:
+                        with open(os.open(fpath, os.O_RDONLY), "rb") as fh:
+                            fickling.load(fh, max_acceptable_severity=T)
+                    finally:
+                        os.remove(fpath)
+                else:
+                    fickling.load(io.BytesIO(data), max_acceptable_severity=T)
             except UnsafeFileError as e:
                 if _listify(e.info) != _listify(td):
                     return (
